@@ -4,6 +4,11 @@ import json, os
 HERE = os.path.dirname(os.path.dirname(os.path.abspath(__file__)))
 ALL = ["C%02d" % i for i in range(1, 21)]
 CHECKS = {
+ "C10": dict(
+   technique="TLA+ spec Workspace.tla (sync events over three files with content variants; reference: index = fresh index in every quiescent state; two named deviations must be refuted by TLC); TLC-enumerated and simulated histories replayed against a long-lived server whose full query battery is compared, in every quiescent state, with a fresh server on a copy of the directory",
+   text="All histories of <=4 (quick) / <=5 (thorough) events over open/edit/save/close/create+open/delete+close/query plus simulated histories of 12; battery = documentSymbol, workspace/symbol, definition+hover at every identifier, completion at every %, references of every declaration, diagnostics.",
+   note="Trusted: TLC, battery normalisation (list order, path prefix). Quiescent = every open document saved since its last edit. New files are announced by didOpen.",
+   design="4/C10"),
  "C05": dict(
    technique="TLA+ spec NameRes.tla: every standard-conforming universe (2 modules, program, internal procedure; declarations, default/explicit accessibility, USE with ONLY lists and renames, re-export) is an initial state for which TLC computes the binding of every reference; rendered to three files and go-to-definition at first/middle/last character of every reference is compared with the spec's binding",
    text="15k universes (2.5k sampled in quick, all in thorough) x every reference token x 3 cursor positions: declaration file/line and a range covering exactly the name; names that are accessible nowhere must not be answered with any declaration (in particular not a PRIVATE one).",
